@@ -174,8 +174,13 @@ class Gen:
         inspected, cleaned"""
         self.nvar = 0
         r = self.r
-        if r.random() < 0.35:
+        t = r.random()
+        if t < 0.3:
             return self.template_nested_failures()
+        if t < 0.45:
+            return self.template_output_becomes_dir()
+        if t < 0.6:
+            return self.template_listing_in_failing()
         d1, d2 = r.sample(NAMES[:4], 2)
         deep = [d1, d2, "in"] if r.random() < 0.6 else [d1, "in"]
         outer = [d1, "out"] if r.random() < 0.7 else [d2 + "x", "out"]
@@ -230,6 +235,63 @@ class Gen:
         if r.random() < 0.5:
             hist.append(["clean", None])
         self.outputs = [f1, f2]
+        self.inputs = []
+        return {"cache": ["cache"], "name": "n", "funcs": funcs, "history": hist}
+
+    def template_output_becomes_dir(self):
+        """the path of a previous output (a regular file) is a directory now: an output is built below
+        it by the next build (or it was swapped externally); queried before, inside and after"""
+        r = self.r
+        d = r.choice(NAMES[:3])
+        P = [d, "o"] if r.random() < 0.7 else ["o" + d]
+        kinds = ["read", "is_dir", "exists", "list_dir", "is_file", "get_size", "walk"]
+
+        def probes(prefix):
+            out = []
+            for i, k in enumerate(r.sample(kinds, 3) + ["read"]):
+                st = ["ask", "%s%d" % (prefix, i), k, P]
+                if k == "read":
+                    st.append("HASH" if r.random() < 0.5 else "METADATA")
+                if k == "walk":
+                    st.append(True)
+                out.append(st)
+            return out
+        cmp_ = "HASH" if self.flip("hash") else "METADATA"
+        inside = probes("i")
+        tailmode = r.choice([[["write", ["lit", "y"]], ["ret", ["digest", [x[1] for x in inside]]]]] * 3 + [[["write", ["lit", "y"]], ["raise", 3]], [["raise", 4]]])
+        funcs = {"w": {"*": [["write", ["lit", "x"]], ["ret", ["lit", 1]]]}, "below": {"*": inside + tailmode}}
+        root1 = [["build_file", "a", P, cmp_, "w", [], {}], ["ret", ["var", "a"]]]
+        before, after = probes("b"), probes("c")
+        root2 = before + [["build_file", "n", P + ["x"], cmp_, "below", [], {}]] + after + [["ret", ["digest", [x[1] for x in before + after] + ["n"]]]]
+        if r.random() < 0.7:
+            hist = [["build", {}, root1], ["build", {}, root2], ["build", {}, root2]]
+        else:
+            root3 = before + after + [["ret", ["digest", [x[1] for x in before + after]]]]
+            hist = [["build", {}, root1], ["mutate", [["rm", P], ["mkdir", P]] + ([["write", P + ["z"], "Z"]] if r.random() < 0.5 else [])],
+                    ["build", {}, root3], ["build", {}, root3]]
+        if r.random() < 0.4:
+            hist.append(["clean", None])
+        self.outputs = [P, P + ["x"]]
+        self.inputs = []
+        return {"cache": ["cache"], "name": "n", "funcs": funcs, "history": hist}
+
+    def template_listing_in_failing(self):
+        """a failing output in a directory the library creates for it lists that directory's parent, which
+        holds real entries sorting before and after; the caller catches; rebuilt unchanged twice"""
+        r = self.r
+        top = r.choice(NAMES[:3])
+        x = r.choice(["a", "h", "z"])
+        cmp_ = "HASH" if self.flip("hash") else "METADATA"
+        target = [top, x, "out"]
+        ask = [["ask", "l1", "list_dir", [top]], ["ask", "l2", "walk", [top], r.random() < 0.5]]
+        r.shuffle(ask)
+        funcs = {
+            "lister": {"*": ask + r.choice([[["raise", 1]], [["write", ["lit", "x"]], ["raise", 2]], [["ret", ["lit", 0]]]])},
+            "outer": {"*": [["build_file", "f", target, cmp_, "lister", [], {}], ["ask", "e", "exists", [top, x]], ["ret", ["digest", ["f", "e"]]]]},
+        }
+        root = [["subbuild", "s", "outer", [], {}], ["ret", ["var", "s"]]]
+        hist = [["mutate", [["write", [top, "m"], "M"], ["write", [top, "b"], "B"]]], ["build", {}, root], ["build", {}, root], ["build", {}, root]]
+        self.outputs = [target]
         self.inputs = []
         return {"cache": ["cache"], "name": "n", "funcs": funcs, "history": hist}
 
@@ -355,6 +417,51 @@ def size_of(case):
         if st[0] == "build":
             walk(st[2])
     return n
+
+
+def _stmts(block):
+    for s in block:
+        yield s
+        if s[0] == "if":
+            yield from _stmts(s[2])
+            yield from _stmts(s[3])
+        elif s[0] == "par":
+            for b in s[1]:
+                yield from _stmts(b)
+
+
+def target_below_own(case):
+    """True when some build_file function can issue a build_file (directly or through the functions it
+    calls) for a path strictly below its own target.  If that nested call fails, the directory made for it
+    at the enclosing target's path is gone from the virtual view at once but stays on disk until the end
+    of the build (C10: "at once in the virtual view and on disk by the end of the build"), so the enclosing
+    function's own physical write meets a directory.  The reference semantics (Spec/Ref.v, Model/Core.v)
+    removes such directories at once; those programs are outside the universe compared with it."""
+    funcs = case["funcs"]
+    memo = {}
+
+    def targets(fname, depth=0):
+        if fname in memo or depth > 8:
+            return memo.get(fname, set())
+        memo[fname] = set()
+        out = set()
+        for body in funcs.get(fname, {}).values():
+            for s in _stmts(body):
+                if s[0] == "build_file":
+                    out.add(tuple(s[2]))
+                    out |= targets(s[4], depth + 1)
+                elif s[0] == "subbuild":
+                    out |= targets(s[2], depth + 1)
+        memo[fname] = out
+        return out
+    blocks = [st[2] for st in case["history"] if st[0] == "build"] + [b for f in funcs.values() for b in f.values()]
+    for blk in blocks:
+        for s in _stmts(blk):
+            if s[0] == "build_file":
+                P = tuple(s[2])
+                if any(len(q) > len(P) and q[:len(P)] == P for q in targets(s[4])):
+                    return True
+    return False
 
 
 def cache_only_dirs(case):
